@@ -16,6 +16,18 @@ def run(tier, deadline):
     env = dict(os.environ, CAT_LIB=vbuild.build("prod"))
     N, perms = (7, 0) if tier == "quick" else (10, 1)
     jobs = [[str(N), str(perms), str(i), "16"] for i in range(16)]
+    # large arrays around the Leonardo numbers L(k) (heap shapes whose order mask needs more than 32 bits start at L(33))
+    Lk = [1, 1]
+    while len(Lk) < 40: Lk.append(Lk[-1] + Lk[-2] + 1)
+    big = []
+    for k in ((33, 34) if tier == "quick" else (31, 32, 33, 34, 35)):
+        for d in ((0, 1) if tier == "quick" else (-1, 0, 1, 2, 3)):
+            n = Lk[k] + d
+            fams = [(2, 0), (3, Lk[k] - 1), (0, 0)] if tier == "quick" else \
+                   [(f, 0) for f in (0, 1, 2, 5, 6, 7)] + [(f, p) for f in (3, 4) for p in sorted({0, n - 1, Lk[k] - 1, Lk[k - 1] - 1, Lk[k - 2] - 1}) if 0 <= p < n]
+            big += [["big", str(n), str(f), str(p)] for f, p in fams]
+    big.sort(key=lambda j: -int(j[1]) * (8 if j[2] in ("6", "1", "7") else 1))     # slow ones first
+    jobs = big + jobs
     viol = {}; internal = []; tot = {"arrays_sorted": 0, "searches": 0, "comparisons": 0}; timed_out = []
     def one(j):
         left = deadline - (time.time() - t0)
@@ -38,8 +50,8 @@ def run(tier, deadline):
     def confirm(v):
         kv = dict(l.split("=", 1) for l in v.replay_text.strip().splitlines()); return replay(kv, quiet=True) == 1
     cov = {"evaluations": tot["arrays_sorted"] + tot["searches"], "distinct_nontrivial": tot["arrays_sorted"] + tot["searches"] - 14 * 5,
-           "rule": "all arrays over keys {0,1,2} with nmemb 0..N (3^n each) x 14 element sizes {1,2,3,4,7,8,12,16,24,255,256,257,300,513} in exact-fit guarded memory; structured families (ascending, descending, all-equal, organ-pipe, two-value, scrambled) for nmemb 8..200; thorough: all 40320 permutations of 0..7; bsearch_s on every sorted array x keys {0,1,2,3(absent)} with a stale matching element just outside the array; oracle: order, permutation of full elements, comparator pointers inside the array and element-aligned, context passed, no fault; non-trivial = nmemb >= 1",
-           "samples": ["sort 4 3 020100", "sort 257 7 02010002010001", "search 16 5 0001010202 3", "sort 8 200 <descending>"], "nmemb_bound": N, "comparisons_observed": tot["comparisons"], "jobs_timed_out": len(timed_out)}
+           "rule": "all arrays over keys {0,1,2} with nmemb 0..N (3^n each) x 14 element sizes {1,2,3,4,7,8,12,16,24,255,256,257,300,513} in exact-fit guarded memory; structured families (ascending, descending, all-equal, organ-pipe, two-value, scrambled) for nmemb 8..200; thorough: all 40320 permutations of 0..7; nested use: every key array with nmemb 3..min(N,7) sorted with a comparator that itself calls qsort_s on a 5-element array of another element size (6 size pairs; in every comparison, or only in the 2nd/3rd/4th), inner and outer results both judged; large arrays of 5-byte elements with nmemb = L(k)+d around the Leonardo numbers L(31..35) (quick: L(33), L(34); d in -1..3, quick 0..1) in guarded memory, families ascending, descending, all-equal, two-value, scrambled, organ-pipe, one minimum / one maximum at position 0, nmemb-1, L(k)-1, L(k-1)-1, L(k-2)-1 (permutation checked by a 32-bit index carried in every element; a call that has not returned after C16_TIME_LIMIT=600 s is a violation); bsearch_s on every sorted array x keys {0,1,2,3(absent)} with a stale matching element just outside the array; oracle: order, permutation of full elements, comparator pointers inside the array and element-aligned, context passed, no fault; non-trivial = nmemb >= 1",
+           "samples": ["sort 4 3 020100", "sort 257 7 02010002010001", "search 16 5 0001010202 3", "sort 8 200 <descending>", "nested 4 5 0201000201 257 3", "big 18454930 3 18454928"], "nmemb_bound": N, "comparisons_observed": tot["comparisons"], "jobs_timed_out": len(timed_out)}
     return common.finish("C16", tier, t0, cov, violations, ["comparator is consistent (total order on the first byte)"], confirm=confirm, exhaustive=not timed_out)
 
 
